@@ -1479,6 +1479,8 @@ package apd
 //@   ensures [neg] old(!isnan(x) && x.Negative && !iszero(x)) ==> (ret0 && d.Form == NaN && ret1 == InvalidOperation)
 //@   ensures [inf] old(x.Form == Infinite && !x.Negative) ==> (ret0 && d.Form == Infinite && !d.Negative && ret1 == 0)
 //@   ensures [zero] old(iszero(x)) ==> (ret0 && d.Form == Infinite && d.Negative && ret1 == 0)
+//@   ensures [one] old(x.Form == Finite && !x.Negative && cmpsigned(x, decimalOne) == 0) ==> (ret0 && d.Form == Finite && val(d.Coeff) == 0 && d.Exponent == 0 && !d.Negative && ret1 == 0)
+//@   ensures [set] ret0 <==> old(isnan(x) || x.Form == Infinite || iszero(x) || x.Negative || (x.Form == Finite && cmpsigned(x, decimalOne) == 0))
 //@   ensures [unchanged] !ret0 ==> (unchanged(d) && ret1 == 0 && ret2 == nil && old(x.Form == Finite && !x.Negative && val(x.Coeff) > 0))
 //@   ensures [inv] ret0 ==> inv(d)
 //@   ensures [fits] wfctx(c) && ret0 ==> fits(c, d)
@@ -2135,12 +2137,26 @@ package apd
 //@   exported
 //@   ensures [wf] ret2 == nil ==> ret0 != nil && inv(ret0)
 // ---------------------------------------------------------------- formatting: no panic (C04); the text itself is C13/C14
-//@ func (*BigInt).Append
-//@   trusted math/big's formatter: appends at least one digit (panics for a base outside 2..62)
+//@ func strconv.AppendUint
+//@   trusted strconv (panics for a base outside 2..36; appends at least one digit)
+//@   requires 2 <= base && base <= 36
+//@   pure
+//@   allocates
+//@   ensures len(ret) >= len(dst) + 1
+//@ func math/big.(*Int).Append
+//@   trusted math/big's formatter (panics for a base outside 2..62; appends at least one digit)
 //@   requires 2 <= base && base <= 62
 //@   pure
 //@   allocates
 //@   ensures len(ret) >= len(buf) + 1
+//@ func (*BigInt).Append
+//@   layer bigint
+//@   props C16 C04
+//@   nilable z
+//@   requires (z != nil ==> rep(z)) && 2 <= base && base <= 62
+//@   pure
+//@   allocates
+//@   ensures z != nil ==> len(ret) >= len(buf) + 1
 //@ func (*Decimal).Append
 //@   props C04
 //@   unreachable ret1: the default case of the switch over the four valid forms
